@@ -291,6 +291,10 @@ type extraProc struct {
 	w    *world
 	id   int
 	seen map[string]int
+	bySp map[int]int // deliveries per shared span (spans are renamed by SetName: the name is no identity)
+	// registration at run time (reg-extra) and first unregistration (unreg-extra): invoke / return stamps
+	regInv, regRet uint64
+	unInv, unRet   uint64
 }
 
 //go:norace
@@ -305,6 +309,12 @@ func (p *extraProc) ForceFlush(context.Context) error { return nil }
 //go:norace
 func (p *extraProc) OnEnd(s sdktrace.ReadOnlySpan) {
 	p.seen[s.Name()]++
+	if i, ok := p.w.spanIdx[s.SpanContext().SpanID()]; ok {
+		if p.bySp == nil {
+			p.bySp = map[int]int{}
+		}
+		p.bySp[i]++
+	}
 	simrt.Yield(simdrv.PtStub) // a processor takes its time: the End that called it may be overtaken here
 }
 
@@ -391,6 +401,7 @@ func (engine) Body(r *simdrv.Run) {
 
 	var opts []sdktrace.TracerProviderOption
 	var extras []*extraProc
+	var lateProcs []*extraProc // processors registered at run time, never unregistered
 	if withExtras {
 		for i := 0; i < 3; i++ {
 			e := &extraProc{w: w, id: i, seen: map[string]int{}}
@@ -489,10 +500,21 @@ func (engine) Body(r *simdrv.Run) {
 						}
 					}
 				case "unreg-extra":
-					tp.UnregisterSpanProcessor(extras[in.Code])
+					x := extras[in.Code]
+					first := x.unInv == 0
+					if first {
+						x.unInv = call
+					}
+					tp.UnregisterSpanProcessor(x)
+					if first {
+						x.unRet = sim.Stamp()
+					}
 					r.Fault("unregister-processor-during-span-ops")
 				case "reg-extra":
-					tp.RegisterSpanProcessor(&extraProc{w: w, id: 9, seen: map[string]int{}})
+					x := &extraProc{w: w, id: 9 + len(lateProcs), seen: map[string]int{}, regInv: call}
+					lateProcs = append(lateProcs, x)
+					tp.RegisterSpanProcessor(x)
+					x.regRet = sim.Stamp()
 				}
 				ret := sim.Stamp()
 				r.Log("%d return %s %+v", ret, name, out)
@@ -560,6 +582,31 @@ func (engine) Body(r *simdrv.Run) {
 		for name, n := range e.seen {
 			if n > 1 {
 				r.Violate(prop, "multiple-onend", fmt.Sprintf("multiple-onend/extra/trace=%v", tracing), "span %s was delivered %d times to a processor that was being unregistered meanwhile", name, n)
+			}
+		}
+	}
+	// processors that come and go: a processor whose registration had returned before any End of a span was
+	// invoked sees that span exactly once; one whose unregistration had returned by then never sees it
+	firstEndCall := map[int]uint64{}
+	for _, o := range w.hist {
+		if in := o.Input.(opIn); in.Kind == "end" {
+			if c, ok := firstEndCall[in.Span]; !ok || uint64(o.Call) < c {
+				firstEndCall[in.Span] = uint64(o.Call)
+			}
+		}
+	}
+	for sp, c := range firstEndCall {
+		if len(w.endRets[sp]) == 0 {
+			continue
+		}
+		for _, x := range lateProcs {
+			if x.regRet != 0 && x.regRet < c && x.bySp[sp] != 1 {
+				r.Violate(prop, "no-onend", "no-onend/registered-at-run-time", "span %d (first End invoked at %d) was delivered %d times to the processor whose RegisterSpanProcessor returned at %d", sp, c, x.bySp[sp], x.regRet)
+			}
+		}
+		for _, x := range extras {
+			if x.unRet != 0 && x.unRet < c && x.bySp[sp] != 0 {
+				r.Violate(prop, "onend-after-unregister", "onend-after-unregister", "span %d (first End invoked at %d) was delivered to processor %d whose UnregisterSpanProcessor returned at %d", sp, c, x.id, x.unRet)
 			}
 		}
 	}
